@@ -260,6 +260,16 @@ func main() {
 			violation = true
 		}
 		if r.err != nil && !hasV {
+			// a fatal runtime error (SIGSEGV from assembly, stack exhaustion ...) in a check that records its case in flight
+			inf := filepath.Join(parts, fmt.Sprintf("inflight.%s.%d.json", ID, s))
+			if b, e := os.ReadFile(inf); e == nil && (bytes.Contains(r.out, []byte("fatal error:")) || bytes.Contains(r.out, []byte("SIGSEGV")) || bytes.Contains(r.out, []byte("unexpected fault address")) || bytes.Contains(r.out, []byte("SIGBUS")) || bytes.Contains(r.out, []byte("SIGILL"))) {
+				rp := filepath.Join(root, "replay", fmt.Sprintf("%s-crash-shard%d-%x.json", ID, s, hashString(string(b))))
+				_ = os.MkdirAll(filepath.Dir(rp), 0o755)
+				_ = os.WriteFile(rp, b, 0o644)
+				fmt.Printf("VIOLATION property=%s replay=%s\n  detail: the test process died with a fatal runtime error while evaluating the recorded case; output tail:\n%s\n", ID, rp, tail(fatalPart(string(r.out)), 25))
+				violation = true
+				continue
+			}
 			infra = true
 			fmt.Printf("[shard %d] test binary failed without a VIOLATION line (%v); output tail:\n%s\n", s, r.err, tail(string(r.out), 60))
 		}
@@ -291,6 +301,20 @@ func main() {
 	}
 	fmt.Printf("OK property=%s tier=%s shards=%d wall=%.1fs\n", ID, *tier, shards, time.Since(start).Seconds())
 	exit(0)
+}
+
+// fatalPart cuts the output at the first fatal-error line.
+func fatalPart(s string) string {
+	for _, m := range []string{"unexpected fault address", "fatal error:", "SIGSEGV"} {
+		if i := strings.Index(s, m); i >= 0 {
+			j := i + 3000
+			if j > len(s) {
+				j = len(s)
+			}
+			return s[i:j]
+		}
+	}
+	return s
 }
 
 func tail(s string, n int) string {
